@@ -61,7 +61,7 @@ RULE = ("oracle: N in [1,12] Gaussian blobs A*exp(-sum((x-c)/sigma)^2/2), render
         "(uniform; ~15 % of the coordinates on half / whole pixels; blobs at exactly the minimum distance "
         "from a border / from each other), every centre >= diameter from the border and >= 2 diameters "
         "(per-axis scaled distance) from every other centre; dtypes uint8 (amplitude 50-250), uint16 / int32 "
-        "(250-60000), int16 (250-30000), float32/float64 (preprocess off: 1e-3..1e5, on: 0.2..1e4); odd diameters, isotropic and "
+        "(250-60000), int16 (250-30000), float32/float64 (raw images also at overall scales 1e-12 … 1e9; a fifth of all scenes with length-one axes) (preprocess off: 1e-3..1e5, on: 0.2..1e4); odd diameters, isotropic and "
         "per axis: 2-D 7-15 with preprocess, 5-15 without; 3-D 7-11.  WITHOUT preprocess: per blob and per "
         "axis sigma in [0.6 px, 0.15*d] (0.13*d for d=5; 3-D 0.18*d), amplitudes within one image within a "
         "factor 1.5.  WITH preprocess (default): one width per image, sigma_a = kappa*d_a with one kappa "
@@ -265,8 +265,21 @@ def gen_oracle(rng, i):
         elif mode == "min":
             u = [0.0] * nd
         blobs.append(dict(c=c, a=a, s=widths(u)))
-    return dict(stream="oracle", nd=nd, shape=shape, dtype=dtype, diameter=diam, preprocess=pre,
-                blobs=blobs, minmass0=rng.random() < 0.15)
+    out = dict(stream="oracle", nd=nd, shape=shape, dtype=dtype, diameter=diam, preprocess=pre,
+               blobs=blobs, minmass0=rng.random() < 0.15)
+    # the same scene as frames often arrive: with length-one axes (a 1-frame stack, a trailing channel
+    # axis); locate squeezes them away
+    lay = rng.random()
+    if lay < 0.2:
+        out["layout"] = rng.choice(["lead", "trail", "both"])
+    # float images in physical units: the same scene at a very small or very large overall scale
+    # (raw float images are rescaled to the integer gamut by their maximum, whatever it is)
+    if dtype in ("float32", "float64") and not pre and rng.random() < 0.3:
+        k = rng.choice([1e-12, 1e-10, 1e-9, 1e-6, 1e6, 1e9]) if dtype == "float64" else rng.choice([1e-9, 1e-6, 1e6])
+        out["fscale"] = k
+        for b in blobs:
+            b["a"] = float("%.6g" % (b["a"] * k))
+    return out
 
 
 def gen_model(rng, i):
@@ -395,6 +408,14 @@ def run_oracle(ctx, inp):
     for b in blobs:
         r = max(s / d for s, d in zip(b["s"], inp["diameter"]))
         res.stat("oracle_sigma_over_d_%.2f" % (math.floor(r * 50) / 50.0))
+    if inp.get("layout"):
+        res.stat("oracle_layout_" + inp["layout"])
+        if inp["layout"] in ("lead", "both"):
+            img = img[None]
+        if inp["layout"] in ("trail", "both"):
+            img = img[..., None]
+    if inp.get("fscale"):
+        res.stat("oracle_float_scale_%g" % inp["fscale"])
     try:
         f = tp.locate(img, tuple(inp["diameter"]), minmass=cut, preprocess=pre)
     except Exception as e:       # locate has no documented reason to refuse such an image
